@@ -14,7 +14,7 @@ def _all_calls(fx, np, pid, t, codes, shape, rng, t2=None, full=True):
         for route in ('np', 'method'):
             for ax in axes:
                 if fn in ('prod', 'cumprod'):
-                    k = len(codes) if (ax is None or len(shape) == 1) else shape[ax]
+                    k = len(codes) if (ax is None or len(shape) == 1 or fn == 'cumprod') else shape[ax]     # (cumprod sizes its result for ALL elements whatever the axis: the stated domain is a result word <= 53 bits)
                     if k * t[1] > 53:
                         continue
                 if not full and rng.random() < 0.5:
@@ -22,6 +22,12 @@ def _all_calls(fx, np, pid, t, codes, shape, rng, t2=None, full=True):
                 via = rng.choice(['direct', 'direct', 'T', 'slice'] + (['row', 'col'] if len(shape) == 1 else []))
                 out.append(x_reduce.observe_reduce(fx, np, [pid], fn, route, t, codes, shape, axis=ax, via=via))
     cl, ch = sorted([rng.randint(lo, hi), rng.randint(lo, hi)])
+    # limits beyond the representable range on either side (a no-op clip, a one-sided one): a negative lower limit for unsigned formats
+    span = hi - lo + 1
+    wide_limits = [(lo - rng.randint(1, span + 3), hi + rng.randint(1, span + 3)), (lo - rng.randint(1, 9), rng.randint(lo, hi)),
+                   (rng.randint(lo, hi), hi + rng.randint(1, 9))]
+    for route in ('np', 'method'):
+        out.append(x_reduce.observe_reduce(fx, np, [pid], 'clip', route, t, codes, shape, lohi=wide_limits[rng.randrange(3)]))
     for route in ('np', 'method'):
         out.append(x_reduce.observe_reduce(fx, np, [pid], 'clip', route, t, codes, shape, lohi=(cl, ch)))
         out.append(x_reduce.observe_reduce(fx, np, [pid], 'transpose', route, t, codes, shape))
